@@ -102,6 +102,25 @@ def cases(shard, nshards, seed, tier):
             continue
         if mine():
             yield {"family": "hostile", "name": name, "n": n, "pairs": pairs}
+    # the upper edge of the domain: one group of exactly 8 crossing stems (8! orders inside the library)
+    k8 = [("ladder8", 32, [(2 * i + 1, 16 + 2 * i + 1) for i in range(8)])]
+    for t in range(5 if tier == "quick" else 40):
+        rng = random.Random(f"{seed}:C16:k8:{t}")
+        n8, p8 = gen2d.random_stems(rng, 8, maxlen=rng.choice([1, 2]), spacer=(0, 1), shape=rng.choice(["chain", None, None, "ladder"]))
+        k8.append((f"eight-{t}", n8, p8))
+    # three mutually crossing stems followed by a chain of five
+    toks = [0, 1, 2, 0, 1, 3, 2, 4, 3, 5, 4, 6, 5, 7, 6, 7]
+    pos, first, prs = 1, {}, []
+    for tk in toks:
+        if tk in first:
+            prs.append((first[tk], pos))
+        else:
+            first[tk] = pos
+        pos += 2
+    k8.append(("triple-then-chain5", pos, sorted(prs)))
+    for name, n, pairs in k8:
+        if mine():
+            yield {"family": "eight-stem-group", "name": name, "n": n, "pairs": pairs}
     nrand = 1200 if tier == "quick" else 20000
     cap = 6 if tier == "quick" else 8
     for i in range(nrand):
